@@ -66,6 +66,29 @@ func prepare(repo, verif string) (*load.Program, error) {
 				}
 			}
 		}
+		if ur, ns := load.UnrollConstRanges(prog.Pkgs, read); len(ur) > 0 {
+			for k, v := range ur {
+				overlay[k] = v
+			}
+			if next, lerr := load.LoadOverlay(repo, overlay); lerr == nil {
+				next.RawID = kit.RawFuncID
+				prog = next
+				notes = append(notes, ns...)
+			} else {
+				notes = append(notes, fmt.Sprintf("unrolling of constant-table loops abandoned (%v)", lerr))
+				for k := range ur {
+					delete(overlay, k)
+				}
+				// restore the switch-normalised text of those files, if any
+				if sw, _ := load.NormaliseSwitches(prog.Pkgs, func(name string) ([]byte, error) { return os.ReadFile(name) }); len(sw) > 0 {
+					for k := range ur {
+						if v, ok := sw[k]; ok {
+							overlay[k] = v
+						}
+					}
+				}
+			}
+		}
 		for round := 0; round < 4; round++ {
 			kit.Canonical = map[string]string{}
 			rn := prog.DetectRenames(table, kit.RawFuncID, kit.CallID)
